@@ -296,6 +296,68 @@ fn exchange_programs() -> Vec<(String, String)> {
     }
     v
 }
+/// every `Type` variant with empty / one-element / two-element aggregates (the hand-written serde pair of types/serde_impl.rs)
+fn type_cases() -> Vec<mimium_lang::types::Type> {
+    use mimium_lang::types::{PType, RecordTypeField, Type};
+    let num = Type::Primitive(PType::Numeric).into_id();
+    let st = Type::Primitive(PType::String).into_id();
+    let tup0 = Type::Tuple(vec![]).into_id();
+    let mut v = vec![
+        Type::Primitive(PType::Unit), Type::Primitive(PType::Int), Type::Primitive(PType::Numeric), Type::Primitive(PType::String),
+        Type::Array(num), Type::Array(tup0), Type::Ref(num), Type::Code(st), Type::Boxed(num), Type::TypeAlias("T".to_symbol()), Type::TypeAlias("".to_symbol()),
+        Type::Function { arg: num, ret: st }, Type::Function { arg: st, ret: num }, Type::Function { arg: tup0, ret: tup0 },
+        Type::Any, Type::Failure, Type::Unknown,
+        Type::UserSum { name: "S".to_symbol(), variants: vec![] },
+        Type::UserSum { name: "S".to_symbol(), variants: vec![("A".to_symbol(), None), ("B".to_symbol(), Some(num))] },
+        Type::UserSum { name: "".to_symbol(), variants: vec![("B".to_symbol(), Some(st)), ("A".to_symbol(), None)] },
+    ];
+    for ids in [vec![], vec![num], vec![st, num], vec![num, num, st]] {
+        v.push(Type::Tuple(ids.clone()));
+        v.push(Type::Union(ids.clone()));
+        v.push(Type::Record(ids.iter().enumerate().map(|(i, t)| RecordTypeField::new(["z", "a", "z"][i].to_symbol(), *t, i % 2 == 1)).collect()));
+    }
+    v
+}
+/// `Value` through ITS hand-written serde pair (interpreter/serde_impl.rs), compared with val_eq + the variants val_eq skips
+fn value_serde_eq(a: &Value, b: &Value) -> bool {
+    match (a, b) {
+        (Value::ErrorV(x), Value::ErrorV(y)) => x == y,
+        (Value::Fixpoint(s, x), Value::Fixpoint(t, y)) => s == t && x == y,
+        (Value::ConstructorFn(i, s, x), Value::ConstructorFn(j, t, y)) => i == j && s == t && x == y,
+        (Value::Array(x), Value::Array(y)) | (Value::Tuple(x), Value::Tuple(y)) => x.len() == y.len() && x.iter().zip(y.iter()).all(|(p, q)| value_serde_eq(p, q)),
+        (Value::Record(x), Value::Record(y)) => x.len() == y.len() && x.iter().zip(y.iter()).all(|((k, p), (l, q))| k == l && value_serde_eq(p, q)),
+        (Value::TaggedUnion(t, x), Value::TaggedUnion(u, y)) => t == u && value_serde_eq(x, y),
+        _ => val_eq(a, b),
+    }
+}
+fn type_serde_violation(only: Option<usize>) -> Option<(usize, String, String)> {
+    let mut i = 0usize;
+    for t in type_cases() {
+        if only.is_none() || only == Some(i) {
+            if let Ok(bytes) = bincode::serialize(&t) {
+                match bincode::deserialize::<mimium_lang::types::Type>(&bytes) {
+                    Ok(back) => if back != t { return Some((i, format!("{t:?}"), format!("type_visit_enum::ensures[decoded type equals the encoded one] decoded={back:?}"))); },
+                    Err(e) => return Some((i, format!("{t:?}"), format!("an encoded type does not decode: {e}"))),
+                }
+            }
+        }
+        i += 1;
+    }
+    let l = leaves();
+    let all: Vec<Value> = l.iter().cloned().chain(wrap(&l)).collect();
+    for v in all {
+        if only.is_none() || only == Some(i) {
+            if let Ok(bytes) = bincode::serialize(&v) {
+                match bincode::deserialize::<Value>(&bytes) {
+                    Ok(back) => if !value_serde_eq(&v, &back) { return Some((i, show(&v), format!("value_visit_enum::ensures[decoded value equals the encoded one] decoded={}", show(&back)))); },
+                    Err(e) => return Some((i, show(&v), format!("an encoded value does not decode: {e}"))),
+                }
+            }
+        }
+        i += 1;
+    }
+    None
+}
 fn branch_state_programs() -> Vec<(String, Vec<f64>, String)> {
     vec![
         ("fn cnt(){ self + 1.0 }\nfn sel(c){\n  if (c) { cnt() } else { cnt()*10.0 }\n}\nfn dsp(){\n  let a = sel(0.0)\n  let b = cnt()\n  a + b*1000.0\n}\n".to_string(),
@@ -706,6 +768,14 @@ fn main() {
             }
         }
         println!("HOLDS tried={}", progs.len());
+        return;
+    }
+    if args.get(1).map(|s| s.as_str()) == Some("type-serde-search") || args.get(1).map(|s| s.as_str()) == Some("type-serde-run") {
+        let only: Option<usize> = args.get(2).and_then(|s| s.parse().ok());
+        match type_serde_violation(only) {
+            Some((i, v, c)) => println!("{} index={i} value={v} clause={c}", if args[1] == "type-serde-run" { "FAILS" } else { "FOUND" }),
+            None => println!("{}", if args[1] == "type-serde-run" { "HOLDS" } else { "NONE" }),
+        }
         return;
     }
     if args.get(1).map(|s| s.as_str()) == Some("run-src") {
